@@ -9,12 +9,13 @@
    on a seekable or bufio reader) must return exactly the reference's packets
    and data; configurations of class "plainauto" (auto-detection on a reader
    that is neither seekable nor bufio, where the library documents packet loss)
-   must agree with each other. *)
+   must agree with each other.  Class "trunc": a capture cut inside a packet (n whole packets + a few bytes), auto-detected,
+   must give what the explicit-size run gives on the same bytes (truncref). *)
 EXTENDS MonBase
 VARIABLES l, st
 vars == <<l, st>>
 NoRef == <<"none">>
-St0(t, i) == [tr |-> t, refP |-> NoRef, refD |-> NoRef, plainP |-> EmptyFn, plainD |-> EmptyFn, P |-> <<>>, D |-> <<>>,
+St0(t, i) == [tr |-> t, truncP |-> EmptyFn, truncD |-> EmptyFn, refP |-> NoRef, refD |-> NoRef, plainP |-> EmptyFn, plainD |-> EmptyFn, P |-> <<>>, D |-> <<>>,
               c |-> [r |-> -1, size |-> 188, auto |-> FALSE, reader |-> "", sched |-> "", class |-> "ref"], at |-> i]
 Init == l = 1 /\ st = St0("none", 0)
 V(kind, s, more) == [prop |-> "C08", kind |-> kind, trace |-> s.tr, at |-> s.at, auto |-> s.c.auto, reader |-> s.c.reader,
@@ -23,6 +24,7 @@ V(kind, s, more) == [prop |-> "C08", kind |-> kind, trace |-> s.tr, at |-> s.at,
 EndPackets(s, i) ==
   LET s0 == [s EXCEPT !.at = i] IN
   IF s.c.r = 0 THEN [s0 EXCEPT !.refP = s.P]
+  ELSE IF s.c.class = "trunc" THEN RepIf(s.P # s.truncP[s.c.sched], s0, V("packets-differ-on-truncated-capture", s0, [name |-> s.c.sched, nref |-> Len(s.truncP[s.c.sched]), ngot |-> Len(s.P)]))
   ELSE IF s.c.class = "ref" THEN RepIf(s.P # s.refP, s0, V("packets-differ-from-reference", s0, [size |-> s.c.size, sched |-> s.c.sched, nref |-> Len(s.refP), ngot |-> Len(s.P)]))
   ELSE IF s.c.size \in DOMAIN s.plainP
        THEN RepIf(s.P # s.plainP[s.c.size], s0, V("plain-auto-runs-disagree", s0, [size |-> s.c.size, sched |-> s.c.sched, nfirst |-> Len(s.plainP[s.c.size]), ngot |-> Len(s.P)]))
@@ -31,6 +33,7 @@ EndPackets(s, i) ==
 EndData(s, i) ==
   LET s0 == [s EXCEPT !.at = i] IN
   IF s.c.r = 0 THEN [s0 EXCEPT !.refD = s.D]
+  ELSE IF s.c.class = "trunc" THEN RepIf(s.D # s.truncD[s.c.sched], s0, V("data-differ-on-truncated-capture", s0, [name |-> s.c.sched, nref |-> Len(s.truncD[s.c.sched]), ngot |-> Len(s.D)]))
   ELSE IF s.c.class = "ref" THEN RepIf(s.D # s.refD, s0, V("data-differ-from-reference", s0, [size |-> s.c.size, sched |-> s.c.sched, nref |-> Len(s.refD), ngot |-> Len(s.D)]))
   ELSE IF s.c.size \in DOMAIN s.plainD
        THEN RepIf(s.D # s.plainD[s.c.size], s0, V("plain-auto-data-disagree", s0, [size |-> s.c.size, sched |-> s.c.sched, nfirst |-> Len(s.plainD[s.c.size]), ngot |-> Len(s.D)]))
@@ -39,6 +42,7 @@ EndData(s, i) ==
 Step(s, e, i) ==
   CASE e.ev = "reset" -> St0(e.t, i)
     [] e.ev = "cfg" -> [s EXCEPT !.c = [r |-> e.r, size |-> e.size, auto |-> e.auto, reader |-> e.reader, sched |-> e.sched, class |-> e.class], !.P = <<>>, !.D = <<>>]
+    [] e.ev = "truncref" -> [s EXCEPT !.truncP = SetFn(s.truncP, e.name, e.P), !.truncD = SetFn(s.truncD, e.name, e.D)]
     [] e.ev = "packet" -> [s EXCEPT !.P = Append(s.P, e.hdg)]
     [] e.ev = "perr" -> EndPackets([s EXCEPT !.P = Append(s.P, "error")], i)
     [] e.ev = "peof" -> EndPackets(s, i)
